@@ -1,7 +1,7 @@
 (** C11: every admin endpoint requires a valid session or credentials once a
     user exists.  Only statements here; proofs live in Proofs/AuthHttp.v and
     Proofs/Routes.v (the latter over the generated table Gen/Routes.v). *)
-From AGH Require Import Base.Run Model.Session Model.AuthHttp Proofs.AuthHttp Proofs.Routes Gen.Routes.
+From AGH Require Import Base.Run Model.Session Model.AuthHttp Proofs.AuthHttp Proofs.AuthGlob Proofs.Routes Gen.Routes.
 Local Open Scope Z_scope.
 
 (** The chain httpRegister puts in front of a handler.  "Does not run [h]" is
@@ -80,3 +80,10 @@ Theorem C11_public_paths : forall p,
   (exists rest, p = str_login_dot ++ rest /\ no_slash rest = true).
 Proof. exact public_paths. Qed.
 Print Assumptions C11_public_paths.
+
+(** The globs as path.Match evaluates them (shared model Base/Glob.v): every
+    path that isPublicResource accepts is public for the wrapper model, so a
+    path the theorems above treat as protected is protected in the code. *)
+Theorem C11_public_globs : forall p, glob_public p = Some true -> is_public p = true.
+Proof. exact glob_public_is_public. Qed.
+Print Assumptions C11_public_globs.
